@@ -22,7 +22,7 @@ import common
 from props import _order_common as oc
 
 PROPERTY = "C08"
-LEAN_MODULE = "CrCube.Props.C08"
+LEAN_MODULE = ["CrCube.Props.C08", "CrCube.Props.C08_ViewIns"]
 THEOREMS = [
     "CrCube.C08.valOps_total", "CrCube.C08.valOps_trans", "CrCube.C08.strOps_total", "CrCube.C08.strOps_trans",
     "CrCube.C08.sortIdxs_split", "CrCube.C08.body_sorted", "CrCube.C08.body_members", "CrCube.C08.body_nodup",
@@ -33,6 +33,10 @@ THEOREMS = [
     "CrCube.C08.surrogate_monotone_spec", "CrCube.C08.scale_monotone", "CrCube.C08.scale_monotone_fin",
     "CrCube.C08.sort_check_ok", "CrCube.C08.dedup_nodup", "CrCube.C08.dedup_mem", "CrCube.C08.fixedIdxs_spec",
     "CrCube.C08.keyword_tables",
+    # C08_ViewIns: the opposing-insertion key is resolved in the EFFECTIVE subtotals (transform list over view list)
+    "CrCube.C08.resolve_names_requested", "CrCube.C08.resolve_none_iff", "CrCube.C08.resolve_some_of_mem",
+    "CrCube.C08.resolve_view_free", "CrCube.C08.colOrder_by_insertion", "CrCube.C08.colOrder_unresolved",
+    "CrCube.C08.rowOrder_by_insertion", "CrCube.C08.rowOrder_unresolved", "CrCube.C08.view_resolution_counterexample",
 ]
 RULE = ("col seam: random categorical dimensions (1-6 elements, 0-3 subtotals) x value vectors from a small pool "
         "(ties, NaN, +-inf, negative, fractions; labels incl. case/empty) x fixed top/bottom id lists (repeats, "
@@ -42,7 +46,11 @@ RULE = ("col seam: random categorical dimensions (1-6 elements, 0-3 subtotals) x
         "categorical array in both renderings (CA_SUBVAR x CA_CAT, CA_CAT x CA_SUBVAR) and strands, with every "
         "supported measure / marginal keyword, opposing_element and opposing_insertion keys naming a category, a "
         "subtotal or a sub-variable of array columns (alias / element id / sub-variable id spellings), unknown "
-        "element / insertion ids, unknown and absent measures. non-trivial = >=2 displayed entries and (two distinct non-NaN sort values or a fixed "
+        "element / insertion ids, unknown and absent measures; view-insertions family: categorical variables carry "
+        "insertions in references.view.transform and the dimension transform re-declares its own `insertions` (same "
+        "subtotals in another order, a subset, a superset with new ids, the same ids re-defined, disjoint ids, id-less, "
+        "empty, or absent) on the sorted and on the opposing dimension, keys naming an effective subtotal, a view-only "
+        "subtotal (unresolvable) or an unknown id. non-trivial = >=2 displayed entries and (two distinct non-NaN sort values or a fixed "
         "id or a NaN); distinct = distinct (seam, collation, keyword, order, direction) key")
 ASSUMPTIONS = [
     "element ids of a dimension are pairwise distinct; one sort value per valid element",
@@ -207,6 +215,88 @@ def _rand_ins_simple(rng, ids, n, diff=True):
     return out
 
 
+def _view_ins(rng, ids, n):
+    """n view-level insertions; ids either a permutation of 1..n(+1) (so that "id" and "position + 1" are easily
+    confused) or scattered in 1..8."""
+    out = _rand_ins_simple(rng, ids, n)
+    if rng.random() < 0.6:
+        for i, iid in zip(out, rng.sample(range(1, n + 2), n)):
+            i["id"] = iid
+    return out
+
+
+REDECLARE = ["none", "perm", "perm", "perm", "perm", "subset", "superset", "superset", "redefine", "disjoint", "idless",
+             "idless", "empty"]
+
+
+def _redeclare(rng, view, ids):
+    """transform-level `insertions` of a dimension whose variable carries `view` insertions: the transform list
+    overrides the view (it may list the same subtotals in another order, drop some, add new ones, re-define an id,
+    use other ids altogether, leave the ids out - numbered 1.. by position then - or be empty); None = no
+    `insertions` key, the view applies.  Returns (mode, list | None)."""
+    mode = rng.choice(REDECLARE)
+    used = {i["id"] for i in view}
+
+    def fresh(k):
+        new = _rand_ins_simple(rng, ids, k)
+        free = [j for j in range(1, 13) if j not in used]
+        for i in new:
+            i["id"] = free.pop(rng.randrange(len(free)))
+            used.add(i["id"])
+        return new
+    if mode == "none":
+        return mode, None
+    if mode == "empty":
+        return mode, []
+    cur = [dict(i) for i in view]
+    if mode == "perm":
+        if len(cur) >= 2:
+            k = rng.randrange(1, len(cur))
+            cur = cur[k:] + cur[:k]
+            if rng.random() < 0.5:
+                cur.reverse()
+                if [i["id"] for i in cur] == [i["id"] for i in view]:
+                    cur = cur[1:] + cur[:1]
+        else:
+            mode = "superset"
+    if mode == "subset":
+        if len(cur) >= 2:
+            del cur[rng.randrange(len(cur))]
+            rng.shuffle(cur)
+        else:
+            mode = "superset"
+    if mode == "superset":
+        for i in fresh(rng.randint(1, 2)):
+            cur.insert(rng.randint(0, len(cur)), i)
+        if rng.random() < 0.4:
+            rng.shuffle(cur)
+    elif mode == "redefine":
+        new = _rand_ins_simple(rng, ids, len(cur))
+        cur = [dict(n, id=c["id"]) for n, c in zip(new, cur)]
+        if rng.random() < 0.5:
+            cur.reverse()
+    elif mode == "disjoint":
+        cur = fresh(rng.randint(1, 3))
+    elif mode == "idless":
+        rng.shuffle(cur)
+        if rng.random() < 0.4:
+            cur += _rand_ins_simple(rng, ids, 1)
+        cur = [dict(i, id=None) for i in cur]
+    return mode, cur
+
+
+def _eff_ins(dd, valid):
+    """[(insertion id, compact insertion)] of the EFFECTIVE subtotals of a dimension, in the order the library lists
+    them (`Dimension.subtotals`): the transform's `insertions` when the key is present, else the variable view's.
+    Transform insertions without ids are numbered 1.. by position among the valid ones (all-or-none in the
+    generators); view insertions always carry ids here."""
+    src = dd.get("insertions")
+    if src is None:
+        src = dd.get("view") or []
+    ok = [i for i in src if oc.ins_valid(i, valid)]
+    return [(i["id"] if i.get("id") is not None else k + 1, i) for k, i in enumerate(ok)]
+
+
 class _AD:
     """one apparent dimension of the cube: kind cat | mr | casub | cacat."""
 
@@ -247,9 +337,16 @@ def _ids_of(ad):
     return ad.ids
 
 
-def _gen_api(rng):
-    nd = rng.choice([1, 2, 2, 2])
-    if nd == 2 and rng.random() < 0.22:
+def _gen_api(rng, view=False):
+    """view=True: the view-insertions family - categorical variables carry insertions in `references.view.transform`
+    and the dimension transform re-declares (or not) its own `insertions` list (see `_redeclare`); sort keys are
+    biased towards `opposing_insertion` naming an effective subtotal, a view-only subtotal (unresolvable) or 99."""
+    nd = rng.choice([1, 2, 2, 2]) if not view else rng.choice([1, 2, 2, 2])
+    if view:
+        kinds = ["cat" if rng.random() < 0.85 else "mr" for _ in range(nd)]
+        vars_ = [gen.gen_var(rng, k, "v%d" % i, n=rng.randint(2, 5), numeric="all" if rng.random() < 0.5 else "some")
+                 for i, k in enumerate(kinds)]
+    elif nd == 2 and rng.random() < 0.22:
         # one categorical-array variable: CA_SUBVAR x CA_CAT, or category-first CA_CAT x CA_SUBVAR
         v = gen.gen_var(rng, "ca", "v0", n=rng.randint(1, 4), ncat=rng.randint(2, 5),
                         numeric="all" if rng.random() < 0.5 else "some")
@@ -261,7 +358,7 @@ def _gen_api(rng):
                  for i, k in enumerate(kinds)]
     ads = _adims(vars_)
     survey = gen.survey_to_json(gen.gen_survey(rng, vars_, n_resp=rng.choice([0, 4, 12, 30, 30]), weighted=rng.random() < 0.6, tiny=True))
-    axis = 0 if nd == 1 else rng.choice([0, 0, 1])
+    axis = 0 if nd == 1 else (rng.choice([0, 0, 1]) if not view else rng.choice([0, 1]))
     extra = [m for m in ("mean", "sum", "stddev") if rng.random() < 0.3]
     sv, ov = ads[axis], (ads[1 - axis] if nd == 2 else None)
     sids = _ids_of(sv)
@@ -273,8 +370,12 @@ def _gen_api(rng):
             if vi and rng.random() < 0.75:
                 d["insertions"] = _rand_ins_simple(rng, vi, rng.randint(1, 3))
         vi = _ids_of(v)
+        if view and not v.is_arr and vi and rng.random() < 0.85:
+            d["view"] = _view_ins(rng, vi, rng.choice([1, 2, 2, 3, 3]))
+            d["redeclare"], d["insertions"] = _redeclare(rng, d["view"], vi)
+            v.var.view_insertions = [oc.ins_real(k, i) for k, i in enumerate(d["view"])]
         d["hide"] = [i for i in vi if rng.random() < 0.15]
-        d["prune"] = rng.random() < 0.3
+        d["prune"] = rng.random() < (0.3 if not view else 0.15)
         dims.append(d)
     # the order transform of the sorted axis
     # array dimensions: a negative number is neither an element id nor a zero-based position (round 5: it must not
@@ -305,6 +406,8 @@ def _gen_api(rng):
         types = ["opposing_element"] * 4 + ["label"] + (["marginal"] * 3 if axis == 0 else [])
         if not ov.is_arr and dims[1 - axis]["insertions"]:
             types += ["opposing_insertion"] * 4
+        if view and not ov.is_arr and dims[1 - axis]["view"]:
+            types += ["opposing_insertion"] * 14
         if ov.is_arr and axis == 0:
             # rows sorted by a "derived column": insertion_id names a sub-variable of the array columns
             types += ["opposing_insertion"] * 6
@@ -325,14 +428,25 @@ def _gen_api(rng):
             order["insertion_id"] = spell(ov) if rng.random() < 0.85 else "zz9"
             order["measure"] = rng.choice(list(MATRIX_PUBLIC))
         elif t == "opposing_insertion":
-            iids = [i["id"] for i in dims[1 - axis]["insertions"]]
-            order["insertion_id"] = rng.choice(iids + iids + [99])
-            order["measure"] = rng.choice(list(MATRIX_PUBLIC))
+            if view:
+                iids = [k for k, _ in _eff_ins(dims[1 - axis], oids)]
+                vids = [i["id"] for i in dims[1 - axis]["view"] or []]
+                vonly = [k for k in vids if k not in iids]        # declared in the view, overridden away: unresolvable
+                order["insertion_id"] = rng.choice(vonly) if (vonly and rng.random() < 0.2) else rng.choice(iids * 6 + vids + [99])
+                order["measure"] = rng.choice(list(MATRIX_PUBLIC) + ["count_weighted", "count_unweighted", "col_percent",
+                                                                     "row_percent", "table_percent"] * 4)
+            else:
+                iids = [i["id"] for i in dims[1 - axis]["insertions"]]
+                order["insertion_id"] = rng.choice(iids + iids + [99])
+                order["measure"] = rng.choice(list(MATRIX_PUBLIC))
         elif t == "marginal":
             order["marginal"] = rng.choice(list(MARGINAL_PUBLIC) + ["foo"])
     dims[axis]["order"] = order
-    return {"seam": "api", "vars": [v.to_json() for v in vars_], "survey": survey, "dims": dims, "axis": axis,
+    case = {"seam": "api", "vars": [v.to_json() for v in vars_], "survey": survey, "dims": dims, "axis": axis,
             "extra": extra, "seed": rng.randint(0, 10 ** 6)}
+    if view:
+        case["family"] = "view"
+    return case
 
 
 def generate(ctx):
@@ -342,6 +456,8 @@ def generate(ctx):
         cases.append(_gen_col(rng))
     for _ in range(ctx.n(900, 12000)):
         cases.append(_gen_api(rng))
+    for _ in range(ctx.n(480, 6000)):
+        cases.append(_gen_api(rng, view=True))
     return cases
 
 
@@ -452,8 +568,7 @@ def _resolvable(case, vars_):
             # rows only (`_SortRowsByDerivedColumnHelper`); columns have no such helper
             return axis == 0 and ads[1 - axis].arr_index(order["insertion_id"]) is not None
         od = case["dims"][1 - axis]
-        valid = _ids_of(ads[1 - axis])
-        return order["insertion_id"] in [i["id"] for i in (od.get("insertions") or []) if oc.ins_valid(i, valid)]
+        return order["insertion_id"] in [k for k, _ in _eff_ins(od, _ids_of(ads[1 - axis]))]
     return True
 
 
@@ -533,7 +648,7 @@ def _api_run(case):
                         kpos = oord.index(oids.index(order["element_id"]))
                     else:
                         od = case["dims"][1 - axis]
-                        iids = [i["id"] for i in od["insertions"] if oc.ins_valid(i, oids)]
+                        iids = [k for k, _ in _eff_ins(od, oids)]
                         kpos = oord.index(iids.index(order["insertion_id"]) - len(iids))
                     vec = arr[:, kpos] if axis == 0 else arr[kpos, :]
                 else:
@@ -758,6 +873,14 @@ def _eval_api(case, louts, ctx):
     if t == "opposing_insertion" and len(ads) == 2 and ads[1 - axis].is_arr:
         ctx.count("api:derived-column:%s" % ads[1 - axis].kind)
     ctx.count("api:%s:%s" % ("rows" if axis == 0 else "cols", t))
+    if case.get("family") == "view":
+        ctx.count("api:view-family")
+        if len(ads) == 2 and t == "opposing_insertion":
+            ctx.count("api:view:%s:key-by-insertion:opposing-%s" % ("rows" if axis == 0 else "cols",
+                                                                   case["dims"][1 - axis].get("redeclare", "transform-only")))
+        ctx.count("api:view:sorted-dimension-%s" % case["dims"][axis].get("redeclare", "transform-only"))
+        where += " [view insertions %r / transform insertions %r]" % tuple(
+            [None if d.get(k) is None else [i.get("id") for i in d[k]] for d in case["dims"]] for k in ("view", "insertions"))
     if "raises" in lo:
         return findings, None
     if "raises" in lib:
@@ -804,8 +927,7 @@ def _eval_api(case, louts, ctx):
     has_diff = False
     for a, u in enumerate(ads):
         uids = _ids_of(u)
-        has_diff = has_diff or any(oc.ins_valid(i, uids) and set(i.get("neg") or []) & set(uids)
-                                   for i in (case["dims"][a].get("insertions") or []))
+        has_diff = has_diff or any(set(i.get("neg") or []) & set(uids) for _, i in _eff_ins(case["dims"][a], uids))
     if kw in ("population", "population_moe") and has_diff:
         # excluded point (DESIGN §3 C08): the public population measures blank difference subtotals to NaN
         # while the sort key (population proportion / its std-err) is finite there
@@ -832,8 +954,13 @@ def describe(case):
     if case["seam"] == "col":
         return {"seam": "col", "ids": [e["id"] for e in case["elems"]], "order": case["dim"]["order"],
                 "hide": case["dim"]["hide"], "vals": case["vals"], "svals": case["svals"]}
-    return {"seam": "api", "kinds": [v["kind"] for v in case["vars"]], "axis": case["axis"],
-            "order": case["dims"][case["axis"]]["order"], "n_respondents": len(case["survey"]), "extra": case["extra"]}
+    d = {"seam": "api", "kinds": [v["kind"] for v in case["vars"]], "axis": case["axis"],
+         "order": case["dims"][case["axis"]]["order"], "n_respondents": len(case["survey"]), "extra": case["extra"]}
+    if case.get("family") == "view":
+        d["view_insertion_ids"] = [None if x.get("view") is None else [i.get("id") for i in x["view"]] for x in case["dims"]]
+        d["transform_insertion_ids"] = [None if x.get("insertions") is None else [i.get("id") for i in x["insertions"]]
+                                        for x in case["dims"]]
+    return d
 
 
 def shrink_candidates(case):
